@@ -10,6 +10,6 @@ CONSTANTS
   DocKinds <- KindsFull
   DocMax = 4
 SPECIFICATION Spec
-INVARIANTS DecTypeOK DecResultIsContract FirstWithinAnyClass DataIffWellFormed
+INVARIANTS DecTypeOK DecResultIsContract FirstWithinAnyClass DataIffWellFormed PromptDelivery BoundedBuffer
 PROPERTY DecTerminates
 CHECK_DEADLOCK FALSE
